@@ -170,12 +170,12 @@ def min_power_competitors(rng, a, phi, n_random=4, pg_steps=60):
     # projected gradient, step 1/lambda_max, started at the matched filter and at a random point
     lmax = np.linalg.eigvalsh(phi)[-1]
     for start in (v0, out[0][1]):
-        v = start.copy()
+        v = start.copy(order='K')
         for _ in range(pg_steps):
             v = v - (proj @ (phi @ v)) / lmax
         out.append(('projected-gradient', v))
     # conjugate-direction refinement: exact line searches along projected gradients (still only competitors)
-    v = v0.copy()
+    v = v0.copy(order='K')
     for _ in range(3 * D):
         g = proj @ (phi @ v)
         den = np.real(quad(g, phi))
@@ -200,5 +200,5 @@ def probe_vectors(rng, x, n, n_random=4, pi_steps=25):
             break
         v = v / nv
         if i % 6 == 5 or i == pi_steps - 1:
-            out.append(('power-iteration', v.copy()))
+            out.append(('power-iteration', v.copy(order='K')))
     return out
